@@ -651,7 +651,7 @@ def evaluate_policy(out: OutputBuffer, aconf: AuditConf, banner: Optional['Banne
 
             out.info("Host:   %s" % host, always_print=True)  # Like the "(gen) target:" line of the standard report: with -l warn or -l fail the report still says which target it is about.
         out.info("Policy: %s%s" % (spacing, aconf.policy.get_name_and_version()))
-        out.info("Result: %s" % spacing, line_ended=False)
+        out.info("Result: %s" % spacing, line_ended=False, always_print=True)  # The verdict line is shown whole at every output level (its two halves are written at different levels).
 
         # Use these nice unicode characters in the result message, unless we're on Windows (the cmd.exe terminal doesn't display them properly).
         icon_good = "✔ "
@@ -661,9 +661,9 @@ def evaluate_policy(out: OutputBuffer, aconf: AuditConf, banner: Optional['Banne
             icon_fail = ""
 
         if passed:
-            out.good("%sPassed" % icon_good)
+            out.good("%sPassed" % icon_good, always_print=True)
         else:
-            out.fail("%sFailed!" % icon_fail)
+            out.fail("%sFailed!" % icon_fail, always_print=True)
             out.warn("\nErrors:\n%s" % error_str)
 
         # If the user selected an out-dated built-in policy then issue a warning.
